@@ -399,6 +399,8 @@ func (s *Sim) deliverSQL(c *call, flt string) {
 		s.trace("SQL %s -> %s %s err=%s", c.src, c.dst, ev.Kind, ev.Err)
 	}
 	if deferred {
+		ev.Err = "pending" // outcome not known yet; filled in when the blocked statement finishes
+		c.ev = ev
 		return
 	}
 	if flt == "lost" {
